@@ -125,6 +125,7 @@ class World:
         self.deriv = [("root", i) for i in range(len(self.datasets))]
         self.snap = [self.observe(s) for s in self.streams]
         self.shared = {k: ast.parse(v["Select"]).body[0].value for k, v in BODIES.items()}
+        self.shared_same = ast.parse(BODIES["any"]["SelectSame"]).body[0].value
         self.last = None  # details of the last execution
         self.track_twin = False
         self.twin = list(self.datasets)  # C16: the same derivations without any QMetaData
@@ -185,6 +186,9 @@ class World:
             return (lambda s: getattr(s, meth)(BODIES[k][name])), (name, "str"), False
         if name == "SelectAst":
             return (lambda s: s.Select(self.shared[k])), ("Select", "ast"), False
+        if name == "SelectAstSame":
+            # ONE user-held ast.Lambda object handed to streams of every kind
+            return (lambda s: s.Select(self.shared_same)), ("Select", "ast-same"), False
         if name == "SelectCall":
             return (lambda s: _sel_ev(s) if k == "Event" else _sel_any(s)), ("Select", "call"), False
         if name == "WhereCall":
@@ -330,6 +334,8 @@ def history_code(roots, hist):
         if name in ("Select", "Where", "SelectMany", "Select2", "SelectSame"):
             meth = "Select" if name in ("Select2", "SelectSame") else name
             code = f"streams.append(streams[{i}].{meth}({BODIES[k][name]!r}))"
+        elif name == "SelectAstSame":
+            code = f"SAME = globals().get('SAME') or ast.parse({BODIES['any']['SelectSame']!r}).body[0].value\nstreams.append(streams[{i}].Select(SAME))"
         elif name == "SelectAst":
             code = f"streams.append(streams[{i}].Select(ast.parse({BODIES[k]['Select']!r}).body[0].value))  # the harness re-uses ONE ast object per kind"
         elif name in ("SelectCall", "WhereCall"):
